@@ -27,7 +27,7 @@ type c05P struct {
 
 const c05ReqTimeout = time.Second
 
-var c05Kinds = []string{bHonest, bNotFound, bEmpty, bHang, bReset, bSlow, bPrefix, bShifted, bDuplicate, bReordered, bForged, bForgedFirst, bWrongChain, bInvalid, bStatus0, bStatus7, bStatusNeg, bTruncated, bOversized, bGarbage, bPanic, bExtra, bNoClose, bGap, bVerifyPanic}
+var c05Kinds = []string{bHonest, bNotFound, bEmpty, bHang, bReset, bSlow, bPrefix, bShifted, bDuplicate, bReordered, bForged, bForgedFirst, bWrongChain, bNoChain, bInvalid, bStatus0, bStatus7, bStatusNeg, bTruncated, bOversized, bGarbage, bPanic, bExtra, bNoClose, bGap, bVerifyPanic}
 
 func TestC05(t *testing.T) {
 	r := mon.Open(t, "C05")
